@@ -104,10 +104,9 @@ fn related_location(rng: &mut Rng, cur: &str) -> String {
     if v == cur && rng.chance(1, 2) {
         // no '/' to play with: double a separator in front
         v = format!("a//{}", cur);
-        if rng.chance(1, 2) {
-            return v;
+        if !rng.chance(1, 2) {
+            v = format!("a/{}", cur);
         }
-        v = format!("a/{}", cur);
     }
     while v.len() > 213 {
         v.pop();
